@@ -64,6 +64,11 @@ class Contract:
     # raises: {ExcName: clause-or-None}.  With a clause: raised EXACTLY when the clause holds (on entry state).
     # None: may be raised (only used for assumed contracts of callees).
     self.raises = {k: (Clause(v) if v is not None else None) for k, v in g("raises", {}).items()}
+    # raises_only_if: {ExcName: clause}: the exception MAY be raised, and only when the clause holds on the entry state
+    # (an obligation of the function's own verification; what a caller learns on the exceptional path)
+    self.raises_only_if = {k: Clause(v) for k, v in g("raises_only_if", {}).items()}
+    for k in self.raises_only_if:
+      self.raises.setdefault(k, None)
     self.loops = {}
     for k, v in g("loops", {}).items():
       self.loops[k] = dict(invariant=[Clause(c) for c in v.get("invariant", [])], variant=v.get("variant"),
